@@ -118,7 +118,7 @@ def entryOkRvmMem (e : Entry) : Bool :=
   match e.rule.ops, e.kinds with
   | [f0, f1, f2], [k0, k1, _] =>
     !anyMemAlt f2 ||
-    ((e.enc == 0x72 || e.enc == 0x75 || e.enc == 0x73) && (memCoreOk e (finalOp e 0x75) 0 &&
+    ((e.enc == 0x72 || e.enc == 0x75 || e.enc == 0x73 || e.enc == 0x76) && (memCoreOk e (finalOp e 0x75) 0 &&
     (f0.role == .reg && (f1.role == .vvvv && (f2.role == .rm && (plainKind k0 && (plainKind k1 && (noFix f0 && (noFix f1 &&
     (formOpMatches e.rule.oszEff f0 (.reg k0 0) && formOpMatches e.rule.oszEff f1 (.reg k1 0)))))))))))
   | _, _ => false
@@ -127,7 +127,7 @@ def entryOkRvmiMem (e : Entry) : Bool :=
   match e.rule.ops, e.kinds with
   | [f0, f1, f2, f3], [k0, k1, _] =>
     !anyMemAlt f2 ||
-    ((e.enc == 0x7A || e.enc == 0x7C) && (memCoreOk e (finalOp e 0x7C) 1 &&
+    ((e.enc == 0x7A || e.enc == 0x7C || e.enc == 0x7B || e.enc == 0x7D) && (memCoreOk e (finalOp e 0x7C) 1 &&
     (f0.role == .reg && (f1.role == .vvvv && (f2.role == .rm && (f3.role == .imm && (immBitsOf f3 == 8 && (plainKind k0 && (plainKind k1 && (noFix f0 && (noFix f1 &&
     (formOpMatches e.rule.oszEff f0 (.reg k0 0) && formOpMatches e.rule.oszEff f1 (.reg k1 0)))))))))))))
   | _, _ => false
